@@ -57,7 +57,88 @@ fn exercise(cx: &mut Ctx, id: u64, inst: &dyn Inst, blocks: &[(String, Vec<u8>)]
     }
 }
 
+/// Inputs constructed by TLC from the specification (spec/gen/Gen_*.tla: keys and blocks that steer an internal state of
+/// the cipher): NDJSON lines {"type", "key", "enc": [blocks], "dec": [blocks]}.  They are exercised like any other input.
+fn run_inputs(cx: &mut Ctx, path: &str, rng: &mut Rng) {
+    let txt = std::fs::read_to_string(path).expect("inputs file");
+    let bytes = |v: &Value| -> Vec<u8> { v.as_array().map(|a| a.iter().map(|x| x.as_u64().unwrap_or(0) as u8).collect()).unwrap_or_default() };
+    let mut open: Option<String> = None;
+    for line in txt.lines().filter(|l| !l.trim().is_empty()) {
+        let v: Value = serde_json::from_str(line).expect("inputs json");
+        let name = v["type"].as_str().unwrap_or("").to_string();
+        let Some(ti) = cx.ty(&name) else { continue };
+        if open.as_deref() != Some(name.as_str()) {
+            if open.is_some() {
+                cx.end();
+            }
+            cx.reset(&name);
+            open = Some(name.clone());
+        }
+        let key = bytes(&v["key"]);
+        let encs: Vec<Vec<u8>> = v["enc"].as_array().map(|a| a.iter().map(|b| bytes(b)).collect()).unwrap_or_default();
+        let decs: Vec<Vec<u8>> = v["dec"].as_array().map(|a| a.iter().map(|b| bytes(b)).collect()).unwrap_or_default();
+        let Some((id, inst)) = cx.construct(ti, "slice", &key, "spec-generated") else { continue };
+        let kind = inst.kind();
+        let mut produced: Vec<Vec<u8>> = Vec::new();
+        for (j, b) in encs.iter().enumerate() {
+            if kind != Kind::Dec {
+                if let Some(c) = cx.one(id, inst.as_ref(), Dir::Enc, shape_of(j), b) {
+                    if kind == Kind::Both {
+                        cx.one(id, inst.as_ref(), Dir::Dec, shape_of(j + 1), &c);
+                    }
+                    produced.push(c);
+                }
+            }
+        }
+        for (j, b) in decs.iter().enumerate() {
+            if kind != Kind::Enc {
+                if let Some(p) = cx.one(id, inst.as_ref(), Dir::Dec, shape_of(j), b) {
+                    if kind == Kind::Both {
+                        cx.one(id, inst.as_ref(), Dir::Enc, shape_of(j + 2), &p);
+                    }
+                }
+            }
+        }
+        // a multi-block call over the same blocks, the conversions of an encrypt-only instance, and a clone
+        // (every lane of a multi-block call is also observed through the single-block entry point of that direction)
+        let alle: Vec<u8> = encs.iter().flat_map(|b| b.clone()).collect();
+        let alld: Vec<u8> = decs.iter().flat_map(|b| b.clone()).collect();
+        if kind != Kind::Dec && !alle.is_empty() {
+            cx.many(id, inst.as_ref(), Dir::Enc, Shape::B2b, &alle, 0, 0, None);
+        }
+        if kind != Kind::Enc && !alld.is_empty() {
+            cx.many(id, inst.as_ref(), Dir::Dec, Shape::Inplace, &alld, 0, 0, None);
+        }
+        if kind == Kind::Enc {
+            for to in inst.conv_targets() {
+                if let Some((cid, c)) = cx.conv_ref(id, inst.as_ref(), to) {
+                    for b in produced.iter().chain(decs.iter()) {
+                        cx.one(cid, c.as_ref(), Dir::Dec, Shape::B2b, b);
+                    }
+                    cx.drop_inst(cid, c);
+                }
+            }
+        }
+        if let Some((cid, c)) = cx.clone_of(id, inst.as_ref()) {
+            let b = encs.first().or(decs.first()).cloned().unwrap_or_else(|| rng.bytes(inst.bs()));
+            exercise(cx, cid, c.as_ref(), &[("spec-generated".to_string(), b)], rng, false);
+            cx.drop_inst(cid, c);
+        }
+        cx.drop_inst(id, inst);
+    }
+    if open.is_some() {
+        cx.end();
+    }
+}
+
 pub fn run(cx: &mut Ctx, args: &Args, rng: &mut Rng) -> i32 {
+    if let Some(path) = args.get("inputs") {
+        let path = path.to_string();
+        run_inputs(cx, &path, rng);
+        if args.get("only-inputs") == Some("1") {
+            return 0;
+        }
+    }
     let nkeys = args.num("keys", 4) as usize;
     let nblocks = args.num("blocks", 3) as usize;
     let all_lens = args.get("lens") == Some("all");
